@@ -9,11 +9,13 @@
    (the branches reachable from this vocabulary).  Transcribed as written, defects included. *)
 Require Import Selen.Model.Prelude Selen.Model.Dom Selen.Model.Views Selen.Model.PropDefs.
 Require Selen.Generated.Consts.
-Require Import Selen.Model.Props.Basic Selen.Model.Props.LinInt Selen.Model.Props.Neq Selen.Model.Api.
+Require Import Selen.Model.Props.Basic Selen.Model.Props.LinInt Selen.Model.Props.Neq Selen.Model.Props.Logic Selen.Model.Api.
 
 (* ---- propagator descriptions: what Propagators::{add,sub,mul,modulo,equals,not_equals,
-   less_than*,greater_than*,int_lin_*} push, as first-order data (printable, comparable with the
-   Debug text of the Rust propagator) ---- *)
+   less_than*,greater_than*,int_lin_*} and, since the repair of D3 (Or / Not lowered through
+   reification: reify_constraint_kind), Propagators::{int_*_reif,int_lin_*_reif,bool_and,bool_or,
+   bool_not} push, as first-order data (printable, comparable with the Debug text of the Rust
+   propagator) ---- *)
 Inductive pdesc :=
 | PAdd (x y : view) (s : nat)        (* Add { x, y, s } *)
 | PMul (x y : view) (s : nat)        (* Mul { x, y, s } *)
@@ -23,7 +25,14 @@ Inductive pdesc :=
 | PNeq (x y : view)                  (* NotEquals { x, y } (neq.rs; prunes since the repair 106df3d) *)
 | PLinEq (cs : list Z) (xs : list nat) (k : Z)
 | PLinLe (cs : list Z) (xs : list nat) (k : Z)
-| PLinNe (cs : list Z) (xs : list nat) (k : Z).
+| PLinNe (cs : list Z) (xs : list nat) (k : Z)
+| PCmpR (op : cmp) (x y b : nat)     (* Int{Eq,Ne,Lt,Le,Gt,Ge}Reif { x, y, b }: b <=> x op y *)
+| PLinEqR (cs : list Z) (xs : list nat) (k : Z) (b : nat)   (* IntLinEqReif *)
+| PLinLeR (cs : list Z) (xs : list nat) (k : Z) (b : nat)   (* IntLinLeReif *)
+| PLinNeR (cs : list Z) (xs : list nat) (k : Z) (b : nat)   (* IntLinNeReif *)
+| PAndR (xs : list nat) (r : nat)    (* BoolAnd { operands, result } *)
+| POrR (xs : list nat) (r : nat)     (* BoolOr { operands, result } *)
+| PNotR (o r : nat).                 (* BoolNot { operand, result } *)
 
 (* documented meaning of a description (DESIGN.md Appendix A); `denote` (Model/LowerDenote.v) maps a
    description to the propagator record whose `sat` is this function (denote_sat) *)
@@ -38,10 +47,23 @@ Definition psat (p : pdesc) (a : asg) : bool :=
   | PLinEq cs xs k => lin_sem (combine cs xs) a =? k
   | PLinLe cs xs k => lin_sem (combine cs xs) a <=? k
   | PLinNe cs xs k => negb (lin_sem (combine cs xs) a =? k)
+  (* the `sat` of the records of Props/Logic.v and Props/LinInt.v (tr z = 1 <=? z: non-zero is true) *)
+  | PCmpR op x y b => Bool.eqb (tr (a b)) (cmp_sem op (a x) (a y))
+  | PLinEqR cs xs k b => is01 (a b) && Bool.eqb (a b =? 1) (lin_sem (combine cs xs) a =? k)
+  | PLinLeR cs xs k b => is01 (a b) && Bool.eqb (a b =? 1) (lin_sem (combine cs xs) a <=? k)
+  | PLinNeR cs xs k b => is01 (a b) && Bool.eqb (a b =? 1) (negb (lin_sem (combine cs xs) a =? k))
+  | PAndR xs r => (match xs with [] => is01 (a r) | _ => true end) && Bool.eqb (tr (a r)) (forallb (fun x => tr (a x)) xs)
+  | POrR xs r => (match xs with [] => is01 (a r) | _ => true end) && Bool.eqb (tr (a r)) (existsb (fun x => tr (a x)) xs)
+  | PNotR o r => is01 (a r) && (0 <=? a o) && Bool.eqb (tr (a r)) (negb (tr (a o)))
   end.
 
-(* the kinds whose propagator records live in Props/Basic.v and Props/LinInt.v; Mul and Modulo are
-   in Props/Arith.v (LowerDenote.v) *)
+(* the kinds whose propagator records live in Props/Basic.v, Props/LinInt.v and Props/Logic.v; Mul
+   and Modulo are in Props/Arith.v (LowerDenote.v) *)
+Definition mk_cmp_reif (op : cmp) : nat -> nat -> nat -> prop :=
+  match op with
+  | OEq => mk_eq_reif | ONe => mk_ne_reif | OLt => mk_lt_reif
+  | OLe => mk_le_reif | OGt => mk_gt_reif | OGe => mk_ge_reif
+  end.
 Definition denote_basic (p : pdesc) : option prop :=
   match p with
   | PAdd x y s => Some (mk_add x y s)
@@ -51,6 +73,13 @@ Definition denote_basic (p : pdesc) : option prop :=
   | PLinEq cs xs k => Some (mk_lin_eq cs xs k)
   | PLinLe cs xs k => Some (mk_lin_le cs xs k)
   | PLinNe cs xs k => Some (mk_lin_ne cs xs k)
+  | PCmpR op x y b => Some (mk_cmp_reif op x y b)
+  | PLinEqR cs xs k b => Some (mk_lin_eq_reif cs xs k b)
+  | PLinLeR cs xs k b => Some (mk_lin_le_reif cs xs k b)
+  | PLinNeR cs xs k b => Some (mk_lin_ne_reif cs xs k b)
+  | PAndR xs r => Some (mk_band xs r)
+  | POrR xs r => Some (mk_bor xs r)
+  | PNotR o r => Some (mk_bnot o r)
   | PMul _ _ _ | PMod _ _ _ => None
   end.
 
@@ -165,10 +194,54 @@ Definition or_eq_pattern (a b : cons) : option (nat * Z * Z) :=
   | _, _ => None
   end.
 
-(* materialize_constraint_kind *)
-Fixpoint materialize (c : cons) (st : lst) : lst :=
+(* the reified LinearInt: `>=`, `>` and `<` are rewritten to `<=` like the un-reified arm *)
+Definition lin_cmp_reif (cs : list Z) (xs : list nat) (op : cmp) (k : Z) (b : nat) : pdesc :=
+  match op with
+  | OEq => PLinEqR cs xs k b
+  | OLe => PLinLeR cs xs k b
+  | ONe => PLinNeR cs xs k b
+  | OGe => PLinLeR (map Z.opp cs) xs (- k) b
+  | OGt => PLinLeR (map Z.opp cs) xs (- k - 1) b
+  | OLt => PLinLeR cs xs (k - 1) b
+  end.
+
+(* Model::bool (= int(0, 1)) *)
+Definition new_bool (st : lst) : nat * lst := new_var (drange 0 1) st.
+
+(* reify_constraint_kind (the repair of D3): a fresh boolean variable that is 1 exactly when the
+   constraint holds.  Binary: both sides through get_expr_var (their auxiliary variables and the
+   arithmetic propagators defining them are posted unconditionally), then the boolean, then the
+   Int*Reif propagator; And / Or / Not: the children, then Model::bool_and / bool_or / bool_not
+   (result variable, then the propagator); LinearInt: the boolean, then IntLin*Reif.  No immediate
+   `remove_all_but` here.  (Float operands take the FloatLin*Reif route: outside this fragment.) *)
+Fixpoint reify (c : cons) (st : lst) : nat * lst :=
   match c with
   | CBin l op r =>
+    let (lv, st) := get_expr_var l st in
+    let (rv, st) := get_expr_var r st in
+    let (b, st) := new_bool st in
+    (b, push (PCmpR op lv rv b) st)
+  | CAnd p q =>
+    let (pb, st) := reify p st in
+    let (qb, st) := reify q st in
+    let (b, st) := new_bool st in
+    (b, push (PAndR [pb; qb] b) st)
+  | COr p q =>
+    let (pb, st) := reify p st in
+    let (qb, st) := reify q st in
+    let (b, st) := new_bool st in
+    (b, push (POrR [pb; qb] b) st)
+  | CNot p =>
+    let (pb, st) := reify p st in
+    let (b, st) := new_bool st in
+    (b, push (PNotR pb b) st)
+  | CLinInt cs xs op k =>
+    let (b, st) := new_bool st in
+    (b, push (lin_cmp_reif cs xs op k b) st)
+  end.
+
+(* the Binary arm of materialize_constraint_kind *)
+Definition materialize_bin (l : expr) (op : cmp) (r : expr) (st : lst) : lst :=
     (* immediate bounds for Var == Val / Val == Var (index guard as in the code) *)
     let st :=
       match op, l, r with
@@ -185,14 +258,39 @@ Fixpoint materialize (c : cons) (st : lst) : lst :=
       let (lv, st) := get_expr_var l st in
       let (rv, st) := get_expr_var r st in
       push (p_cmp op (VVar lv) (VVar rv)) st
-    end
+    end.
+
+(* materialize_constraint_kind (after the repair of D3: Or and Not through reification) *)
+Fixpoint materialize (c : cons) (st : lst) : lst :=
+  match c with
+  | CBin l op r => materialize_bin l op r st
   | CAnd a b => materialize b (materialize a st)
   | COr a b =>
     match or_eq_pattern a b with
     | Some (x, l, r) => let (n, st) := new_var (dof_values [l; r]) st in push (PEq (VVar x) (VVar n)) st
-    | None => materialize b (materialize a st)       (* "fall back to posting both constraints" *)
+    | None =>                                         (* reify both sides; bool_or; its result is 1 *)
+      let (lb, st) := reify a st in
+      let (rb, st) := reify b st in
+      let (e, st) := new_bool st in
+      push (PEq (VVar e) (VConst 1)) (push (POrR [lb; rb] e) st)
     end
-  | CNot a => materialize a st                        (* "simplified implementation" *)
+  | CNot a =>                                         (* the reified constraint's boolean is 0 *)
+    let (b, st) := reify a st in push (PEq (VVar b) (VConst 0)) st
+  | CLinInt cs xs op k => push (lin_desc cs xs op k) st
+  end.
+
+(* the PRE-REPAIR materialize_constraint_kind (before the repair of D3), kept for the refutation
+   lemmas: Or outside the special case posted both sides, Not posted its argument *)
+Fixpoint materialize_prefix (c : cons) (st : lst) : lst :=
+  match c with
+  | CBin l op r => materialize_bin l op r st
+  | CAnd a b => materialize_prefix b (materialize_prefix a st)
+  | COr a b =>
+    match or_eq_pattern a b with
+    | Some (x, l, r) => let (n, st) := new_var (dof_values [l; r]) st in push (PEq (VVar x) (VVar n)) st
+    | None => materialize_prefix b (materialize_prefix a st)       (* "fall back to posting both constraints" *)
+    end
+  | CNot a => materialize_prefix a st                               (* "simplified implementation" *)
   | CLinInt cs xs op k => push (lin_desc cs xs op k) st
   end.
 
@@ -386,6 +484,18 @@ Definition lower (m : mstate) : lowered :=
       LOk (fst st) (snd st)
     end.
 
+(* the same with the pre-repair lowering of the pending ASTs (D3), for the refutation lemmas *)
+Definition lower_prefix (m : mstate) : lowered :=
+  if mpanic m then LPanic
+  else
+    let st := infer_eq (mpend m) (mst m) in
+    match immediate_var_eq (mpend m) st with
+    | None => LPanic
+    | Some st =>
+      let st := fold_left (fun st c => materialize_prefix c st) (mpend m) st in
+      LOk (fst st) (snd st)
+    end.
+
 (* ModelValidator::validate, the branches this vocabulary can reach: an empty integer domain or one
    with more than MAX_SPARSE_SET_DOMAIN_SIZE values (validate_variable_domains runs first; the code
    tests the universe size max - min + 1 fixed at creation, which is the size of an auxiliary
@@ -412,8 +522,9 @@ Definition validate (s : store) (ps : list pdesc) : option verr :=
   else if existsb (mod_divisor_has_zero s) ps then Some EInvalidConstraint
   else None.
 
-(* ---- decidable known-defect classes (predicates on the program / the posted tree) ---- *)
-(* D3: `Or` lowered like `And` (outside the special case), `Not` lowered as the identity *)
+(* ---- the former known-defect class D3 (repaired: Or and Not are lowered through reification) ---- *)
+(* the trees the PRE-REPAIR lowering got wrong: `Or` lowered like `And` (outside the special case),
+   `Not` lowered as the identity.  Kept for the refutation lemmas about materialize_prefix. *)
 Fixpoint kf_or_not (c : cons) : bool :=
   match c with
   | CBin _ _ _ | CLinInt _ _ _ _ => false
@@ -428,13 +539,15 @@ Fixpoint all_asgs (s : store) : list (list Z) :=
   | d :: r => flat_map (fun x => map (fun t => x :: t) (all_asgs r)) d
   end.
 Definition asg_of_list (l : list Z) : asg := fun v => nth v l 0.
-(* what the lowering of the stored AST `c` enforces: Or -> And, Not -> identity (the auxiliary
+(* what the lowering of the stored AST `c` enforces on the variables of the tree (the auxiliary
    variables' computed bounds contain every value their expression takes on the current domains:
-   ebounds_sound).  This is the meaning of the propagator DESCRIPTIONS (`psat`, theorem
-   lower_denotes_exact) and, every propagator enforcing its `sat` (C05; NotEquals since the repair
-   106df3d: Props/Neq.v), what the tie uses to predict enumerate's answer.  Before that repair a
-   Binary `!=` (one nested under and/or/not, or between non-linear sides) enforced nothing (former
-   class nested_ne). *)
+   ebounds_sound; the hidden booleans of a reified sub-tree are determined by the tree's value).
+   This is the meaning of the propagator DESCRIPTIONS (`psat`, theorem lower_denotes_exact) and, every
+   propagator enforcing its `sat` (C05), what the tie uses to predict enumerate's answer.  It is the
+   arithmetic reading (impl_holds: impl_cons c a = holds c a): a comparison with an undefined side
+   (a modulo by zero) is never satisfied; a conjunction is the conjunction of its sides; Or and Not
+   hold when the tree is DEFINED and evaluates to true (the arithmetic under a reified comparison is
+   posted unconditionally, so a zero divisor anywhere excludes the assignment). *)
 Fixpoint impl_cons (c : cons) (a : asg) : bool :=
   match c with
   | CBin l op r =>
@@ -443,11 +556,23 @@ Fixpoint impl_cons (c : cons) (a : asg) : bool :=
     | _, _ => false
     end
   | CAnd p q => impl_cons p a && impl_cons q a
+  | COr _ _ | CNot _ => holds c a
+  | CLinInt cs xs op k => cmp_sem op (lin_val cs xs a) k
+  end.
+(* what the PRE-REPAIR lowering enforced: Or -> And, Not -> identity *)
+Fixpoint impl_cons_prefix (c : cons) (a : asg) : bool :=
+  match c with
+  | CBin l op r =>
+    match eval_expr l a, eval_expr r a with
+    | Some x, Some y => cmp_sem op x y
+    | _, _ => false
+    end
+  | CAnd p q => impl_cons_prefix p a && impl_cons_prefix q a
   | COr p q =>
     match or_eq_pattern p q with
     | Some (x, l, r) => (a x =? l) || (a x =? r)
-    | None => impl_cons p a && impl_cons q a
+    | None => impl_cons_prefix p a && impl_cons_prefix q a
     end
-  | CNot p => impl_cons p a
+  | CNot p => impl_cons_prefix p a
   | CLinInt cs xs op k => cmp_sem op (lin_val cs xs a) k
   end.
